@@ -254,6 +254,8 @@ type Features struct {
 	// CovSameKey: a response position below such a field is selected under >= 2 different combinations of
 	// outer and inner type conditions (see CondCombos)
 	CovField, CovNarrowed, CovSameKey bool
+	// ScopedHop: an entity-typed field that an interface declares is selected under >= 2 type-condition scopes
+	ScopedHop bool
 }
 
 func (c *Case) Features() Features {
@@ -334,16 +336,17 @@ func (c *Case) Features() Features {
 	}
 	walk(c.Cfg.Super.Query, c.Op.Sels, 0)
 	f.CovField, f.CovNarrowed, f.CovSameKey = c.covFeatures()
+	f.ScopedHop = c.scopedHopFeature()
 	return f
 }
 
 // Summary is the one-line case description used in cases files and evidence samples.
 func (c *Case) Summary(v *Verdict) string {
 	f := c.Features()
-	return fmt.Sprintf("(sum (subgraphs %d) (types %d) (fetches %d) (entityfetches %d) (abstract %s) (requires %s) (provides %s) (vars %s) (frags %s) (dirs %s) (aliases %s) (ifacerequires %s) (ifaceobjlist %s) (covfield %s) (covnarrowed %s) (covsamekey %s))",
+	return fmt.Sprintf("(sum (subgraphs %d) (types %d) (fetches %d) (entityfetches %d) (abstract %s) (requires %s) (provides %s) (vars %s) (frags %s) (dirs %s) (aliases %s) (ifacerequires %s) (ifaceobjlist %s) (covfield %s) (covnarrowed %s) (covsamekey %s) (scopedhop %s))",
 		f.Subgraphs, f.Types, v.Fetches, v.EntityFetches, common.B(f.Abstract), common.B(f.Requires), common.B(f.Provides),
 		common.B(f.Variables), common.B(f.Fragments), common.B(f.Directives), common.B(f.Aliases),
-		common.B(f.IfaceRequires), common.B(f.IfaceObjList), common.B(f.CovField), common.B(f.CovNarrowed), common.B(f.CovSameKey))
+		common.B(f.IfaceRequires), common.B(f.IfaceObjList), common.B(f.CovField), common.B(f.CovNarrowed), common.B(f.CovSameKey), common.B(f.ScopedHop))
 }
 
 func joinTrunc(xs []string, n int) string {
